@@ -293,7 +293,29 @@ Section Parser.
         Ok (CLimit a ev, remainder2)
     else Err.
 
-  (* fuel: nesting depth of [ ]; the while loop of the union arm has its own counter *)
+  (* the while loop of the "[" arm; [pc] is Constraint::parse one nesting level down *)
+  Fixpoint union_loop (pc : str -> outcome (constr * list str * str)) (n : nat)
+           (subs : list constr) (q : str) {struct n} : outcome (list constr * str) :=
+    match q with
+    | [] => Ok (subs, q)
+    | _ =>
+        match n with
+        | 0 => Fuel
+        | S n' =>
+            do (sub, _, remainder0) <- pc q;
+            let remainder := trim_start remainder0 in
+            if starts_with K_OR_ remainder then
+              do q' <- slice_from 3 remainder; union_loop pc n' (subs ++ [sub]) q'
+            else if starts_with K_RBRACKET remainder then
+              do q' <- slice_from 1 remainder; Ok (subs ++ [sub], q')
+            else match remainder with
+                 | [] => Ok (subs ++ [sub], remainder)
+                 | _ => Err
+                 end
+        end
+    end.
+
+  (* fuel: nesting depth of [ ] *)
   Fixpoint parse_constraint (fuel : nat) (qs0 : str) : outcome (constr * list str * str) :=
     match fuel with
     | 0 => Fuel
@@ -302,27 +324,7 @@ Section Parser.
         let w := split_first qs in
         if str_eqb w K_LBRACKET then
           do r <- slice_from 1 qs;
-          do (subs, rest) <-
-            (fix uloop (n : nat) (subs : list constr) (q : str) {struct n}
-               : outcome (list constr * str) :=
-               match q with
-               | [] => Ok (subs, q)
-               | _ =>
-                   match n with
-                   | 0 => Fuel
-                   | S n' =>
-                       do (sub, _, remainder0) <- parse_constraint f q;
-                       let remainder := trim_start remainder0 in
-                       if starts_with K_OR_ remainder then
-                         do q' <- slice_from 3 remainder; uloop n' (subs ++ [sub]) q'
-                       else if starts_with K_RBRACKET remainder then
-                         do q' <- slice_from 1 remainder; Ok (subs ++ [sub], q')
-                       else match remainder with
-                            | [] => Ok (subs ++ [sub], remainder)
-                            | _ => Err
-                            end
-                   end
-               end) f [] (trim_start r);
+          do (subs, rest) <- union_loop (parse_constraint f) f [] (trim_start r);
           match subs with
           | [] => Err
           | _ => do rest' <- eat_semi rest; Ok (CUnion subs, attributes, rest')
@@ -426,6 +428,29 @@ Section Parser.
     else if allow_close && (starts_with [c_rbrace] w || starts_with [c_pipe] w) then Ok qs
     else Err.
 
+  (* the loop of parse_subqueries; [ps] is parse_select one nesting level down *)
+  Fixpoint sub_loop (ps : str -> list str -> outcome (query * str)) (n : nat)
+           (subs : list query) (q : str) {struct n} : outcome (list query * str) :=
+    match n with
+    | 0 => Fuel
+    | S n' =>
+        do r <- slice_from 1 q;
+        do (attrs, q1) <- parse_attributes (trim_start r);
+        do (subs', q2) <-
+          (if starts_with K_SELECT q1
+           then do (sub, remainder) <- ps q1 attrs;
+                Ok (subs ++ [sub], trim_start remainder)
+           else Ok (subs, q1));
+        if first_is c_rbrace (first_nonspace q2) then
+          do r' <- slice_from 1 q2; Ok (subs', trim_start r')
+        else if first_is c_pipe (first_nonspace q2) then sub_loop ps n' subs' q2
+        else Err
+    end.
+
+  Definition subqueries_with (ps : str -> list str -> outcome (query * str)) (F : nat) (qs : str)
+    : outcome (list query * str) :=
+    if first_is c_lbrace (first_nonspace qs) then sub_loop ps F [] (trim_start qs) else Ok ([], qs).
+
   (* F: budget for every loop and for the nesting of unions; fuel: nesting of { } *)
   Fixpoint parse_select (F : nat) (fuel : nat) (qs0 : str) (attributes : list str)
     : outcome (query * str) :=
@@ -441,35 +466,13 @@ Section Parser.
             do (name, qs3) <- parse_name (trim_start r2);
             do qs4 <- where_clause K_WHERE true qs3;
             do (cs, cas, qs5) <- constraints_loop F F [] [] qs4;
-            do (subs, qs6) <- parse_subqueries_body F f qs5;
+            do (subs, qs6) <- subqueries_with (parse_select F f) F qs5;
             Ok (Q name QSelect optional (Some rt) [] cs cas subs attributes, qs6)
         end
-    end
-  with parse_subqueries_body (F : nat) (fuel : nat) (qs : str) : outcome (list query * str) :=
-    match fuel with
-    | 0 => Fuel
-    | S f =>
-        if first_is c_lbrace (first_nonspace qs) then
-          (fix sloop (n : nat) (subs : list query) (q : str) {struct n} : outcome (list query * str) :=
-             match n with
-             | 0 => Fuel
-             | S n' =>
-                 do r <- slice_from 1 q;
-                 do (attrs, q1) <- parse_attributes (trim_start r);
-                 do (subs', q2) <-
-                   (if starts_with K_SELECT q1
-                    then do (sub, remainder) <- parse_select F f q1 attrs;
-                         Ok (subs ++ [sub], trim_start remainder)
-                    else Ok (subs, q1));
-                 if first_is c_rbrace (first_nonspace q2) then
-                   do r' <- slice_from 1 q2; Ok (subs', trim_start r')
-                 else if first_is c_pipe (first_nonspace q2) then sloop n' subs' q2
-                 else Err
-             end) F [] (trim_start qs)
-        else Ok ([], qs)
     end.
 
-  Definition parse_subqueries (F fuel : nat) (qs : str) := parse_subqueries_body F fuel qs.
+  (* Query::parse_subqueries (mutable = false: only SELECT sub-queries) *)
+  Definition parse_subqueries (F fuel : nat) (qs : str) := subqueries_with (parse_select F fuel) F qs.
 
   Definition add_resulttype (w : str) : bool := str_eqb w K_ANNOTATION || str_eqb w K_annotation.
 
